@@ -75,6 +75,31 @@ def visible(method):
     return {'method': method, 'child_saw': saw, 'parent_saw': arr[1]}
 
 
+def fork_isolation():
+    """objects allocated after a fork, one in the child and one in the parent, do not share storage"""
+    ctx = billiard.get_context('fork')
+    warm = sc.RawArray('B', 64)                  # the parent's heap has an arena with free space before the fork
+    r1, w1 = ctx.Pipe(duplex=False)
+    r2, w2 = ctx.Pipe(duplex=False)
+    n = 256
+    p = ctx.Process(target=targets.private_array, args=(n, r1, w2))
+    p.start()
+    ok_child = None
+    if r2.poll(30) and r2.recv() == 'filled':
+        mine = sc.RawArray('B', n)
+        zero_at_birth = all(x == 0 for x in mine)
+        for i in range(n):
+            mine[i] = 0xC3
+        w1.send('go')
+        ok_child = r2.recv() if r2.poll(30) else None
+        ok_parent = all(x == 0xC3 for x in mine)
+    else:
+        zero_at_birth = ok_parent = None
+    p.join(10)
+    del warm
+    return {'parent_zero_at_birth': zero_at_birth, 'parent_intact': ok_parent, 'child_intact': ok_child}
+
+
 def _nonzero(seq, zero, attr=None):
     """some element differs from zero (memory that does not even decode counts as non-zero)"""
     try:
@@ -132,7 +157,7 @@ def type_sweep():
 def main():
     out, tier = sys.argv[1], sys.argv[2]
     thorough = tier == 'thorough'
-    res = {'counters': [], 'visibility': [], 'types': type_sweep()}
+    res = {'counters': [], 'visibility': [], 'types': type_sweep(), 'fork_isolation': fork_isolation()}
     for method in ('fork', 'spawn', 'forkserver'):
         res['counters'].append(counters(method, 4 if thorough else 3, 300 if thorough else 100))
         res['counters'].append(counters(method, 3, 100, held=True))
